@@ -372,6 +372,11 @@ def find_closure(fi: FuncInfo, expr: ast.AST) -> Optional[ast.AST]:
         o = origin(defs, expr)
         if isinstance(o, ast.Lambda):
             return o
+        if isinstance(o, ast.Name) and o.id != expr.id:
+            # an alias of a nested function (e.g. `nm, em = (node_match, edge_match)` left by a substituted factory)
+            cands = [n for n in ast.walk(fi.node) if isinstance(n, ast.FunctionDef) and n.name == o.id and n is not fi.node]
+            if cands:
+                return sorted(cands, key=lambda n: n.lineno)[-1]
         # a closure handed out by a factory of the same module:  nm, em = <factory>(...)  with  def <factory>(..): def nm(..) ..; def em(..) ..; return nm, em
         for d_ in defs.get(expr.id, []):
             if isinstance(d_.value, ast.Call):
